@@ -1,7 +1,7 @@
-TUS = ['src/client/QXmppCarbonManagerV2.cpp', 'src/client/QXmppCarbonManager.cpp', 'src/client/QXmppClientExtension.cpp', 'src/base/QXmppUtils.cpp']
-MODELS = ['qt_core.c', 'qt_dom.c', 'qt_object.c', 'c11_env.c']
-BOUND = 'stanza tree: outer + 3 children + 2 grandchildren each + 2 great-grandchildren each (22 elements), every tag from {message,sent,received,forwarded,body,private,messages}, every xmlns from {carbons:2, forward:0, jabber:client, carbons:1, inherited}, child counts 0..max; outer from absent or <= 4 arbitrary UTF-16 units; configured bare JID <= 4 arbitrary units'
-BOUND_BIG = BOUND.replace('3 children + 2 grandchildren each + 2 great-grandchildren each (22 elements)', '3 children + 3 grandchildren each + 3 great-grandchildren each (40 elements)').replace('<= 4 arbitrary', '<= 8 arbitrary')
+TUS = ['src/client/QXmppCarbonManagerV2.cpp', 'src/client/QXmppCarbonManager.cpp', 'src/client/QXmppClientExtension.cpp', 'src/base/QXmppUtils.cpp', 'src/client/QXmppConfiguration.cpp']
+MODELS = ['qt_core.c', 'qt_list.c', 'qt_dom.c', 'qt_object.c', 'c11_env.c']
+BOUND = 'stanza tree: outer + 3 children + 2 grandchildren each + 2 great-grandchildren each (22 elements), every tag from {message,sent,received,forwarded,body,private,messages}, every xmlns from {carbons:2, forward:0, jabber:client, carbons:1, inherited}, child counts 0..max; outer from absent or <= 6 arbitrary UTF-16 units; account = REAL QXmppConfiguration with symbolic user (0..2 units), domain (1..3 units), resource (0..2 units), user/domain without @ and /'
+BOUND_BIG = BOUND.replace('3 children + 2 grandchildren each + 2 great-grandchildren each (22 elements)', '3 children + 3 grandchildren each + 3 great-grandchildren each (40 elements)').replace('<= 6 arbitrary', '<= 8 arbitrary')
 def I(name, entry, **kw):
     d = dict(name=name, entry=entry, unwind=14, timeout_s=600, mem_gb=8, cdefs={'VP_ACTIVATE_HOOK': 'c11_on_signal', 'QS_CAP': 20, 'DOM_MAXCH': 3, 'DOM_MAXATTR': 2}, bound=BOUND); d.update(kw); return d
 SPEC = dict(
@@ -15,13 +15,14 @@ SPEC = dict(
                         [('v2_tree', 'h_v2'), ('v1_tree', 'h_v1'), ('v2_nofrom', 'h_v2_nofrom'), ('v1_nofrom', 'h_v1_nofrom')]]),
     ],
     bounds=[BOUND, 'thorough: ' + BOUND_BIG,
-            'one handleStanza call per run from an arbitrary configured bare JID (single step; the managers keep no state between stanzas)',
+            'one handleStanza call per run from an arbitrary account identity of the bound (single step; the managers keep no state between stanzas)',
             'first_child: parent (possibly null) with 0..3 children, query tag/namespace from the tables or empty (wildcard)'],
-    assumptions=['the manager is registered with a client (client() != nullptr); the configured bare JID is ANY string of the bound, including empty',
+    assumptions=['the manager is registered with a client (client() != nullptr); the account identity is a real QXmppConfiguration (src/client/QXmppConfiguration.cpp linked, default constructor + setUser/setDomain/setResource); user() / domain() / resource() / jid() / jidBare() are the real getters; the oracle composes the own bare JID itself (user empty ? domain : user@domain); domain non-empty; user and domain contain neither @ nor /',
+                 'QConcatenable<QString>::appendTo (QStringBuilder piece, Qt inline memcpy of symbolic size) is a typed unit-by-unit copy model; QNetworkProxy/QSslCertificate/QDateTime are opaque 8-byte values carried by the configuration',
                  'QDomElement::attribute() of an absent attribute returns the empty default (Qt contract, DOM model)',
                  'children of an element are elements only (DOM model has no text/comment nodes between elements); namespaceURI() = own xmlns or the parent\'s',
                  'QXmppMessage::parse / setCarbonForwarded / constructor / destructor are recording models (WHICH element is parsed, flag value); message content is C01/C17\'s subject',
-                 'QXmppClient::configuration().jidBare() returns the harness-chosen string; QXmppClient::injectMessage is a recording model returning an arbitrary bool',
+                 'QXmppClient::configuration() returns the harness-built configuration object; QXmppClient::injectMessage is a recording model returning an arbitrary bool',
                  'QMetaObject::activate records the emission (sender, meta object, signal index, argument snapshot); slots are not run; QXmppLoggable::logMessage is a no-op; V2\'s log text (QStringBuilder::convertTo) is not built',
                  'signal indices of messageSent/messageReceived are measured by calling the real moc-generated signal bodies before the stanza is handled'],
     outside=['e2ee metadata other than std::nullopt (the parameter is unused by V2)', 'the dispatch inside QXmppClient (StanzaPipeline/MessagePipeline) before and after the manager: the managers are called non-virtually on raw storage',
